@@ -839,8 +839,10 @@ let run (lineno : int) (lbc : str -> n list) ofit (args : string array) (impl : 
         (* structural half of C15 *)
         let t = ds (f 1) in
         (match split_on '/' impl with
-         | [ut; _w; uii; usi; ule] ->
+         | [ut; uw; uii; usi; ule] ->
              let ut = ds ut and uii = ds uii and usi = ds usi in
+             let widest = List.fold_left (fun acc l -> if n_lt acc (dwm l) then dwm l else acc) N0 (str_lines t) in
+             if not (N.eqb (n_of_dec uw) widest) then say "C15" "FAIL" ("the returned width is not the display width of the widest line (" ^ dec_of_n widest ^ ")") else
              let nel = List.filter (fun l -> l <> []) (str_lines t) in
              let pc = List.for_all is_prefix_char in
              let inner = (match List.rev ut with c :: r when N.eqb c lF -> List.rev r | _ -> ut) in
